@@ -2,5 +2,5 @@
 # evaluate both mutants of one property sequentially: tools/evalprop.sh Cnn [extra checks]
 p=$1; shift
 for k in 1 2; do
-  [ -f /tmp/seed/$p/out/m$k.diff ] && /venv/bin/python /verif/tools/evalmutant.py $p $k "$@" > /tmp/seed/eval_${p}_$k.json 2>&1
+  B=${SEED_DIR:-/tmp/seed}; [ -f $B/$p/out/m$k.diff ] && /venv/bin/python /verif/tools/evalmutant.py $p $k "$@" > $B/eval_${p}_$k.json 2>&1
 done
